@@ -313,8 +313,17 @@ def sandbox_dirs(root, recipe):
     return cmap_abs, out_abs, out_arg
 
 
+def _sandbox_base():
+    """Directory for the per-case sandboxes: a memory file system when there is one (a sandbox costs 10+ mkdir/rmdir;
+    ~0.1 ms there against tens of ms on a busy disk), else the default temporary directory."""
+    b = os.environ.get("VERIF_SANDBOX_BASE")
+    if b:
+        return b
+    return "/dev/shm" if os.path.isdir("/dev/shm") and os.access("/dev/shm", os.W_OK | os.X_OK) else None
+
+
 def make_sandbox(recipe):
-    root = os.path.realpath(tempfile.mkdtemp(prefix="c15-"))
+    root = os.path.realpath(tempfile.mkdtemp(prefix="c15-", dir=_sandbox_base()))
     for d in ("out", "outside", "cmap", "cwd"):
         os.mkdir(os.path.join(root, d))
     for d in recipe.get("out_dirs", []):
@@ -886,7 +895,7 @@ def cases(draw, focus):
 
 def plan(tier):
     q = tier == "quick"
-    n = 75 if q else 1600
+    n = 250 if q else 3000
     specs = [{"focus": "cmap", "n": n} for _ in range(6)]
     specs += [{"focus": "image", "n": n} for _ in range(6)]
     specs += [{"focus": "mixed", "n": n} for _ in range(4)]
